@@ -59,7 +59,8 @@ def cases(tier, rng):
         out.append(W("track", ["t", 5, [one_note_bar(4, key=k), ["C", 4, 4, []], one_note_bar(2, key=k)]], tag="write:key"))
     for m in METERS + [(c, 2 ** e) for c in (1, 3) for e in range(0, 8)]:
         out.append(W("bar", one_note_bar(m[1], meter=m), tag="write:meter"))
-    for v in INT_VALUES + ROUNDING_VALUES:
+    # ... and values so short that the entry lasts one tick or none at all (round(288/value) = 1, 0, 0)
+    for v in INT_VALUES + ROUNDING_VALUES + [400, 577, 1024]:
         out.append(W("bar", one_note_bar(v, meter=(4, 1)), tag="write:value"))
         out.append(W("bar", ["C", 4, 1, [[v, None], [v, [["E", 4, 2, 70]]], [v, []], [v, [["G", 4, 2, 70]]]]], tag="write:value"))
     A, B = [["C", 4, 1, 64]], [["E", 4, 3, 90], ["G", 4, 3, 90]]
